@@ -1746,3 +1746,431 @@ Proof.
   exists l1, (l2 ++ l3), l4. rewrite <- !app_assoc. cbn. reflexivity.
 Qed.
 
+
+(** * Quiescent serializability with Delete
+
+    When no Delete holds the root lock -- in particular when every call has
+    returned -- the stored content is what the flat specification computes by
+    executing the Add and Delete calls that have taken effect one after the
+    other in the order of their linearization events, each with the answer it
+    actually returned; every returned Add / Delete is in that sequence exactly
+    once ([lin_complete_D], [lin_unique_D]) and the sequence respects real time
+    ([lin_real_time_D]).  GetLeafValue / Query / Walk / Leaf.Value change
+    nothing and can be put anywhere. *)
+Theorem quiescent_serializable_D ops s log ev :
+  forallb no_hupd_op ops = true -> reach_lin_D ops s log ev ->
+  (forall i t, nth_error (thr s) i = Some t -> is_done (tpc t) = true) ->
+  exists m, spec_run_D (fun _ => None) (ev_ops ops ev) m /\ (forall q, m q = absf (hp s) q) /\
+            NoDup (map fst ev) /\
+            (forall i t r, nth_error (thr s) i = Some t -> point_op_D (top t) = true ->
+                           tpc t = PDone r -> In (i, r) ev).
+Proof.
+  intros Q R DONE.
+  assert (NB : nobody_in s).
+  { intros d td Ed. specialize (DONE _ _ Ed). destruct (tpc td); try discriminate. reflexivity. }
+  destruct (lin_simulation_D_content _ _ _ _ Q R NB) as [m [SR EQ]].
+  exists m. split; [exact SR|]. split; [exact EQ|]. split; [eapply lin_unique_D; eauto|].
+  intros i t r Et PO Pc. eapply lin_complete_D; eauto. rewrite Pc. reflexivity.
+Qed.
+
+(** * Non-vacuity: a Delete interleaved with an Add and a GetLeafValue *)
+Open Scope string_scope.
+Open Scope list_scope.
+
+Definition del_ex_ops : list cop :=
+  [CAdd ["a"; "b"] 1%Z; CAdd ["a"; "c"] 2%Z; CDelete ["a"; "*"]; CAdd ["d"] 3%Z; CGetVal ["a"; "b"]].
+
+(** both Adds complete; GetLeafValue(a/b) gets its node and releases the tree;
+    Delete of a/[*] takes the root lock and removes a/b ... *)
+Definition del_ex_sched1 : list nat :=
+  repeat 0 40 ++ repeat 1 40 ++ repeat 4 11 ++ repeat 2 14.
+(** ... then Add(d) starts and blocks, GetLeafValue reads its (unlinked) leaf,
+    Delete goes on with a/c, prunes a and the root, and everybody finishes *)
+Definition del_ex_sched2 : list nat :=
+  del_ex_sched1 ++ [4; 3; 3; 4] ++ repeat 2 40 ++ repeat 3 40 ++ repeat 4 10.
+
+Example delete_example_hyps :
+  forallb no_hupd_op del_ex_ops = true /\ reach del_ex_ops (run_sched (init_state del_ex_ops) del_ex_sched2).
+Proof. split; [reflexivity|apply reach_run_sched]. Qed.
+
+(** in the middle of the Delete the stored content is neither the old nor the new one *)
+Example delete_example_mid :
+  let s := run_sched (init_state del_ex_ops) del_ex_sched1 in
+  (map (fun t => in_delete (tpc t)) (thr s), map (absf (hp s)) [["a"; "b"]; ["a"; "c"]; ["d"]])
+  = ([false; false; true; false; false], [None; Some 2%Z; None]).
+Proof. vm_compute. reflexivity. Qed.
+
+Example delete_example_end :
+  let s := run_sched (init_state del_ex_ops) del_ex_sched2 in
+  (map tpc (thr s), map (absf (hp s)) [["a"; "b"]; ["a"; "c"]; ["d"]; []])
+  = ([PDone (XAdd true); PDone (XAdd true); PDone (XPaths [["a"; "b"]; ["a"; "c"]]);
+      PDone (XAdd true); PDone (XVal (Some 1%Z))],
+     [None; None; Some 3%Z; None]).
+Proof. vm_compute. reflexivity. Qed.
+
+(** the sequential witness of that run: Add a/b, Add a/c, Delete a/[*], Add d *)
+Example delete_example_witness :
+  spec_run_D (fun _ => None)
+    [(CAdd ["a"; "b"] 1%Z, XAdd true); (CAdd ["a"; "c"] 2%Z, XAdd true);
+     (CDelete ["a"; "*"], XPaths [["a"; "b"]; ["a"; "c"]]); (CAdd ["d"] 3%Z, XAdd true)]
+    (upd (fun p => if qmatch ["a"; "*"] p then None
+                   else upd (upd (fun _ => None) ["a"; "b"] 1%Z) ["a"; "c"] 2%Z p) ["d"] 3%Z).
+Proof.
+  change ([(CAdd ["a"; "b"] 1%Z, XAdd true); (CAdd ["a"; "c"] 2%Z, XAdd true);
+          (CDelete ["a"; "*"], XPaths [["a"; "b"]; ["a"; "c"]]); (CAdd ["d"] 3%Z, XAdd true)])
+    with (((([] ++ [(CAdd ["a"; "b"] 1%Z, XAdd true)]) ++ [(CAdd ["a"; "c"] 2%Z, XAdd true)]) ++
+          [(CDelete ["a"; "*"], XPaths [["a"; "b"]; ["a"; "c"]])]) ++ [(CAdd ["d"] 3%Z, XAdd true)]).
+  eapply srd_snoc; [eapply srd_snoc; [eapply srd_snoc; [eapply srd_snoc; [apply srd_nil; reflexivity|]|]|]|].
+  - left. exists ["a"; "b"], 1%Z. split; [reflexivity|]. split; [reflexivity|].
+    split; [intros q _; reflexivity|reflexivity].
+  - left. exists ["a"; "c"], 2%Z. split; [reflexivity|]. split; [reflexivity|]. split; [|reflexivity].
+    intros q [H|H]; unfold upd; destruct (path_eqb_spec q ["a"; "b"]) as [->|NE]; auto; cbn in H; discriminate.
+  - right; right. exists ["a"; "*"], [["a"; "b"]; ["a"; "c"]]. split; [reflexivity|]. split; [reflexivity|].
+    split; [|reflexivity]. intros p. unfold upd. split.
+    + intros [<-|[<-|[]]]; cbn; split; auto; discriminate.
+    + intros [NN M]. destruct (path_eqb_spec p ["a"; "c"]) as [E1|N1]; [right; left; auto|].
+      destruct (path_eqb_spec p ["a"; "b"]) as [E2|N2]; [left; auto|]. contradiction.
+  - left. exists ["d"], 3%Z. split; [reflexivity|]. split; [reflexivity|]. split; [|reflexivity].
+    intros q _. destruct (qmatch ["a"; "*"] q) eqn:M; [reflexivity|]. unfold upd.
+    destruct (path_eqb_spec q ["a"; "c"]) as [E1|N1]; [subst q; cbn in M; discriminate|].
+    destruct (path_eqb_spec q ["a"; "b"]) as [E2|N2]; [subst q; cbn in M; discriminate|reflexivity].
+Qed.
+
+(** * Query / Walk in programs with Delete
+
+    A Query holds the root read lock from its first to its last critical
+    section, so no Delete is at work while it traverses the tree. *)
+
+Lemma q_ok_same h h' t : (forall n, get_cont h' n = get_cont h n) -> q_ok h t -> q_ok h' t.
+Proof.
+  intros E. unfold q_ok, item_ok. destruct (tpc t); auto; rewrite ?(resolve_ext _ _ E);
+    intros H; try destruct H as [R H]; try split; auto;
+    (eapply Forall_impl; [|exact H]; intros l Hl; eapply Forall_impl; [|exact Hl];
+     intros it; cbn; rewrite (resolve_ext _ _ E); auto).
+Qed.
+
+Lemma resolve_to_root h : heap_ok h -> forall p, resolve h 0 p = Some 0 -> p = [].
+Proof.
+  intros HO [|a p] R; [reflexivity|]. exfalso.
+  pose proof (resolve_gt h HO (a :: p) 0 0) as G. specialize (G ltac:(discriminate) R). lia.
+Qed.
+
+Theorem reach_q_ok_D ops s :
+  forallb no_hupd_op ops = true -> reach ops s -> Forall (q_ok (hp s)) (thr s).
+Proof.
+  intros Q R. pose proof (no_hupd_patched _ Q) as QP.
+  induction R as [|s j s' R IH ST].
+  - cbn. apply Forall_forall. intros t Ht. apply in_map_iff in Ht. destruct Ht as [o [<- _]]. exact I.
+  - assert (I := reach_Inv _ _ R). assert (I' := I). destruct I' as [HO [TO _]].
+    destruct (reach_TInv _ _ QP R) as [_ [_ [KN _]]].
+    assert (R' : reach ops s') by (econstructor; eauto).
+    assert (ST0 := ST). unfold step, step_gen in ST.
+    destruct (nth_error (thr s) j) as [tj|] eqn:Ej; [|discriminate].
+    destruct (tstep_gen false (hp s) tj) as [[h' tj']|] eqn:Ets; [|discriminate]. inv ST. cbn [hp thr].
+    pose proof (Forall_nth_error _ _ _ _ TO Ej) as Tj.
+    pose proof (Forall_nth_error _ _ _ _ (reach_fam_ok _ _ R) Ej) as Fj.
+    destruct (no_hupd_top _ _ _ _ Q R Ej) as [NU NDU].
+    destruct (quiet_pc (tpc tj)) eqn:Qj.
+    + pose proof (tstep_cont_mono _ _ _ _ _ Tj Qj Ets) as CM.
+      apply Forall_forall. intros t0 H0. apply In_set_nth in H0. destruct H0 as [->|H0].
+      * eapply q_ok_step; eauto. apply (Forall_nth_error _ _ _ _ IH Ej).
+      * rewrite Forall_forall in IH. eapply q_ok_mono; eauto.
+    + destruct (not_quiet_is_delete tj Fj NU NDU Qj) as [qd Td].
+      apply Forall_forall. intros t0 H0. apply In_set_nth in H0. destruct H0 as [->|H0].
+      * (* the Delete thread itself is no Query *)
+        pose proof (tstep_fam_ok _ _ _ _ _ Fj Ets) as [Ff _].
+        rewrite (tstep_top _ _ _ _ _ Ets), Td in Ff.
+        unfold q_ok. destruct (tpc tj'); auto; discriminate Ff.
+      * apply In_nth_error in H0. destruct H0 as [i Ei].
+        pose proof (Forall_nth_error _ _ _ _ IH Ei) as QO.
+        destruct (Nat.eq_dec i j) as [->|D].
+        { rewrite Ej in Ei. inv Ei. unfold q_ok. destruct Fj as [Ff _]. rewrite Td in Ff.
+          destruct (tpc t0); auto; discriminate Ff. }
+        destruct (in_delete (tpc tj)) eqn:ID.
+        -- (* a Delete inside the tree: the Query holds nothing *)
+           destruct (delete_atomic_patched ops s j i tj t0 R (not_eq_sym D) Ej Ei ID) as [NH _].
+           pose proof (Forall_nth_error _ _ _ _ TO Ei) as [_ [_ P]].
+           unfold q_ok in *. destruct (tpc t0) eqn:Pc; auto; cbn in NH; specialize (NH eq_refl);
+             rewrite NH in P; cbn in P.
+           ++ destruct P as [[_ [_ [Z _]]] F2]. inversion F2; subst. destruct QO as [Rp _].
+              rewrite (Z eq_refl) in *. rewrite (resolve_to_root _ HO _ Rp). split; [reflexivity|constructor].
+           ++ destruct P as [[[r0 X] _] _]. discriminate.
+           ++ destruct P as [_ F2]. inversion F2; subst. constructor.
+           ++ destruct P as [_ F2]. inversion F2; subst. constructor.
+        -- eapply q_ok_same; [|exact QO]. eapply outside_step_cont; eauto.
+           ++ intros _. destruct Tj as [_ [_ P]]. destruct Fj as [Ff _]. rewrite Td in Ff.
+              destruct (tpc tj); try discriminate Qj; try discriminate ID; cbn in P; auto;
+                cbn in Ff; discriminate.
+           ++ intros n v Pc. destruct Fj as [Ff _]. rewrite Pc, Td in Ff. discriminate.
+Qed.
+
+(** soundness: what a Query / Walk reports is stored, with that value, at the
+    moment of the report *)
+Theorem query_reports_present_D ops s i t t0 pre q acc fr v :
+  forallb no_hupd_op ops = true -> reach ops s ->
+  nth_error (thr s) i = Some t -> tpc t = PQRead t0 pre q acc fr ->
+  query_visits (get_cont (hp s) t0) q = Some v ->
+  absf (hp s) pre = Some v /\
+  (exists s', step s i = Some s' /\
+     exists t', nth_error (thr s') i = Some t' /\ tpc t' = PQVisit pre v acc ([] :: fr)).
+Proof.
+  intros Q R Et Pc QV.
+  pose proof (Forall_nth_error _ _ _ _ (reach_q_ok_D _ _ Q R) Et) as X.
+  unfold q_ok in X. rewrite Pc in X. destruct X as [Rp _]. split.
+  - unfold absf. rewrite Rp. unfold query_visits in QV.
+    destruct (get_cont (hp s) t0); try discriminate.
+    destruct q as [|k0 [|? ?]]; try discriminate.
+    + inv QV. reflexivity.
+    + destruct (is_glob k0); try discriminate. inv QV. reflexivity.
+  - assert (LO : lockop_of t = LNone) by (unfold lockop_of; rewrite Pc; reflexivity).
+    unfold step, step_gen. rewrite Et. unfold tstep_gen. rewrite LO, Pc. cbn. rewrite QV. cbn.
+    eexists. split; [reflexivity|]. cbn [thr]. eexists. split.
+    + erewrite nth_error_set_nth_eq by eauto. reflexivity.
+    + reflexivity.
+Qed.
+
+(** runs all of whose states satisfy [P] *)
+Inductive steps_all (P : state -> Prop) : state -> state -> Prop :=
+| sa_refl s : P s -> steps_all P s s
+| sa_more s1 s i s' : steps_all P s1 s -> step s i = Some s' -> P s' -> steps_all P s1 s'.
+
+(** completeness: a leaf that the query selects and that is stored in every
+    state from the invocation of the Query / Walk to its return is reported *)
+Theorem query_reports_all_D ops s1 s2 i t1 t2 q acc pth :
+  forallb no_hupd_op ops = true -> reach ops s1 ->
+  steps_all (fun s => absf (hp s) pth <> None) s1 s2 ->
+  nth_error (thr s1) i = Some t1 -> tpc t1 = PStart (CQuery q None) ->
+  nth_error (thr s2) i = Some t2 -> tpc t2 = PDone (XLeaves acc) ->
+  qmatch q pth = true -> In pth (map fst acc).
+Proof.
+  intros Q R1 RUN E1 P1 E2 P2 M.
+  set (S0 := fun p => p = pth).
+  assert (QP := no_hupd_patched _ Q).
+  assert (G : reach ops s2 /\
+              exists t, nth_error (thr s2) i = Some t /\ top t = CQuery q None /\ cov_pc S0 q (tpc t)).
+  { clear E2 P2. induction RUN as [s ST0|s1 s j s' RUN IH ST PS].
+    - split; [exact R1|]. exists t1. split; [exact E1|]. split.
+      + destruct (Forall_nth_error _ _ _ _ (reach_fam_ok _ _ R1) E1) as [_ S1]. symmetry. apply S1. exact P1.
+      + rewrite P1. intros p _ _. exact I.
+    - destruct (IH R1 E1) as [R [t [Et [Tp CV]]]].
+      split; [econstructor; eauto|].
+      destruct (reach_TInv _ _ QP R) as [_ [_ [KN _]]].
+      assert (PSs : absf (hp s) pth <> None).
+      { clear - RUN. destruct RUN; auto. }
+      assert (ST0 := ST). unfold step, step_gen in ST.
+      destruct (nth_error (thr s) j) as [tj|] eqn:Ej; [|discriminate].
+      destruct (tstep_gen false (hp s) tj) as [[h' tj']|] eqn:Ets; [|discriminate]. inv ST. cbn [hp thr].
+      destruct (Nat.eq_dec j i) as [->|D].
+      + rewrite Et in Ej. inv Ej. exists tj'. split; [eapply nth_error_set_nth_eq; eauto|].
+        split; [rewrite (tstep_top _ _ _ _ _ Ets); exact Tp|].
+        eapply cov_step; eauto.
+        * apply (Forall_nth_error _ _ _ _ (reach_q_ok_D _ _ Q R) Et).
+        * apply (Forall_nth_error _ _ _ _ (reach_fam_ok _ _ R) Et).
+        * intros p ->. apply absf_leaf_at. exact PSs.
+      + exists t. split; [rewrite nth_error_set_nth_neq by auto; exact Et|auto]. }
+  destruct G as [_ [t [Et [_ CV]]]]. rewrite E2 in Et. inv Et. rewrite P2 in CV.
+  apply (CV pth); [reflexivity|exact M].
+Qed.
+
+(** ** no leaf is reported twice (all programs with the current Delete) *)
+Definition incomp (a b : path) : Prop := is_prefix a b = false /\ is_prefix b a = false.
+
+Definition pre_of (it : qitem) : path := snd (fst it).
+
+Definition pending (p : pc) : list path :=
+  match p with
+  | PQEnter _ pre _ _ fr | PQRead _ pre _ _ fr | PQVisit pre _ _ fr => pre :: map pre_of (List.concat fr)
+  | PQNext _ fr => map pre_of (List.concat fr)
+  | _ => []
+  end.
+
+Definition acc_of (p : pc) : list (path * Z) :=
+  match p with
+  | PQEnter _ _ _ acc _ | PQRead _ _ _ acc _ | PQVisit _ _ acc _ | PQNext acc _ => acc
+  | PDone (XLeaves acc) | PUnwind (UDone (XLeaves acc)) | PHRel (XLeaves acc) => acc
+  | _ => []
+  end.
+
+Definition uq (p : pc) : Prop :=
+  NoDup (map fst (acc_of p)) /\
+  (forall a x, In a (map fst (acc_of p)) -> In x (pending p) -> is_prefix x a = false) /\
+  ForallOrdPairs incomp (pending p).
+
+Lemma FOP_app {A} (R : A -> A -> Prop) l1 l2 :
+  ForallOrdPairs R l1 -> ForallOrdPairs R l2 -> (forall x y, In x l1 -> In y l2 -> R x y) ->
+  ForallOrdPairs R (l1 ++ l2).
+Proof.
+  induction l1 as [|a l1 IH]; intros F1 F2 C; [exact F2|].
+  inversion F1 as [|a' l' Fa F1']; subst. cbn. constructor.
+  - apply Forall_app. split; [exact Fa|]. apply Forall_forall. intros y Hy. apply C; [left; reflexivity|exact Hy].
+  - apply IH; auto. intros x y Hx Hy. apply C; [right; exact Hx|exact Hy].
+Qed.
+
+Lemma FOP_map_snoc (pre : path) ks : NoDup ks -> ForallOrdPairs incomp (map (fun k => pre ++ [k]) ks).
+Proof.
+  induction 1 as [|k ks NI ND IH]; cbn; constructor; [|exact IH].
+  apply Forall_forall. intros y Hy. apply in_map_iff in Hy. destruct Hy as [k' [<- Hk']].
+  assert (D : k <> k') by (intros ->; contradiction).
+  split; apply (prefix_diverge pre); auto.
+Qed.
+
+Lemma snoc_prefix_of (pre x : path) k : is_prefix (pre ++ [k]) x = true -> is_prefix pre x = true.
+Proof. intros H. eapply is_prefix_trans; [apply is_prefix_app|exact H]. Qed.
+
+Lemma incomp_snoc (pre x : path) k : incomp pre x -> incomp (pre ++ [k]) x.
+Proof.
+  intros [H1 H2]. split.
+  - destruct (is_prefix (pre ++ [k]) x) eqn:E; [|reflexivity]. rewrite (snoc_prefix_of _ _ _ E) in H1. discriminate.
+  - destruct (is_prefix x (pre ++ [k])) eqn:E; [|reflexivity].
+    destruct (prefix_snoc _ _ _ E) as [H|H]; [congruence|]. subst x. rewrite is_prefix_app in H1. discriminate.
+Qed.
+
+Lemma qi_pres c pre qr :
+  (forall cs, c = CBranch cs -> NoDup (keys cs)) ->
+  exists ks, NoDup ks /\ map pre_of (query_items c pre qr) = map (fun k => pre ++ [k]) ks.
+Proof.
+  intros ND. unfold query_items.
+  assert (ALL : forall cs (r' : path), map pre_of (map (fun kc : string * nat => ((snd kc, pre ++ [fst kc], r') : qitem)) cs)
+                             = map (fun k => pre ++ [k]) (keys cs)).
+  { intros cs r'. rewrite !map_map. reflexivity. }
+  destruct qr as [|k r].
+  - destruct c as [| |cs]; try (exists []; split; [constructor|reflexivity]).
+    exists (keys cs). split; [apply ND; reflexivity|apply ALL].
+  - destruct (is_glob k).
+    + destruct c as [| |cs]; try (exists []; split; [constructor|reflexivity]).
+      exists (keys cs). split; [apply ND; reflexivity|apply ALL].
+    + destruct c as [| |cs]; try (exists []; split; [constructor|reflexivity]).
+      destruct (assoc k cs); [|exists []; split; [constructor|reflexivity]].
+      exists [k]. split; [constructor; [intros []|constructor]|reflexivity].
+Qed.
+
+Lemma uq_step b h t h' t' :
+  keys_nodup h -> fam_ok t -> uq (tpc t) -> tstep_gen b h t = Some (h', t') -> uq (tpc t').
+Proof.
+  intros KN [FA S1] U ST. pose proof (tstep_shape _ _ _ _ _ ST) as SH.
+  assert (TRIV : forall p, acc_of p = [] -> pending p = [] -> uq p).
+  { intros p A P. unfold uq. rewrite A, P. split; [constructor|]. split; [intros a x []|constructor]. }
+  destruct t as [o p hs]. cbn [top tpc held] in *.
+  destruct (lockop_of (TH o p hs)) eqn:LO.
+  - destruct SH as [_ ->]. cbn [tpc].
+    destruct p; cbn -[Nat.ltb hdelete set_cont new_chain] in *; try discriminate;
+      try (apply TRIV; reflexivity).
+    + (* PStart *) destruct o0; cbn -[Nat.ltb]; try (apply TRIV; reflexivity).
+      * split; [constructor|]. split; [intros a x []|]. constructor; [constructor|constructor].
+      * destruct (Nat.ltb n (List.length h)); apply TRIV; reflexivity.
+      * destruct (Nat.ltb n (List.length h)); apply TRIV; reflexivity.
+    + destruct (get_cont h t); apply TRIV; reflexivity.
+    + destruct (get_cont h t) as [| |cs]; try (apply TRIV; reflexivity). destruct (assoc k cs); apply TRIV; reflexivity.
+    + destruct (get_cont h t) as [| |cs]; cbn -[set_cont new_chain]; try (apply TRIV; reflexivity).
+      destruct (assoc k cs); apply TRIV; reflexivity.
+    + destruct p as [|k r]; [apply TRIV; reflexivity|]. destruct (get_cont h t) as [| |cs]; try (apply TRIV; reflexivity).
+      destruct (assoc k cs); apply TRIV; reflexivity.
+    + destruct k; cbn; [|apply TRIV; reflexivity]. destruct r; try (apply TRIV; reflexivity).
+      destruct U as [U1 _]. split; [exact U1|]. split; [intros a x _ []|constructor].
+    + (* PQRead *)
+      destruct U as [U1 [U2 U3]]. cbn [acc_of pending] in *.
+      destruct (query_visits (get_cont h t) q) eqn:QV; cbn [snd visit_override tpc]; unfold uq;
+        cbn [acc_of pending List.concat app].
+      * split; [exact U1|]. split; [exact U2|exact U3].
+      * destruct (qi_pres (get_cont h t) pre q) as [ks [NDk Ek]].
+        { intros cs E. eapply KN; eauto. }
+        rewrite map_app, Ek. inversion U3 as [|x l Fx F3]; subst.
+        split; [exact U1|]. split.
+        -- intros a x Ha Hx. apply in_app_or in Hx. destruct Hx as [Hx|Hx].
+           ++ apply in_map_iff in Hx. destruct Hx as [k [<- _]].
+              destruct (is_prefix (pre ++ [k]) a) eqn:E; [|reflexivity].
+              pose proof (U2 a pre Ha (or_introl eq_refl)) as X. rewrite (snoc_prefix_of _ _ _ E) in X. discriminate.
+           ++ apply U2; auto. right. exact Hx.
+        -- apply FOP_app; [apply FOP_map_snoc; exact NDk|exact F3|].
+           intros x y Hx Hy. apply in_map_iff in Hx. destruct Hx as [k [<- _]].
+           apply incomp_snoc. rewrite Forall_forall in Fx. apply Fx. exact Hy.
+    + (* PQVisit *)
+      destruct U as [U1 [U2 U3]]. cbn [acc_of pending] in *.
+      inversion U3 as [|x l Fx F3]; subst.
+      assert (NEXT : uq (PQNext (acc ++ [(pre, v)]) fr)).
+      { cbn [uq acc_of pending]. unfold uq. cbn [acc_of pending]. rewrite map_app. cbn [map fst]. split.
+        - apply NoDup_app_intro_single; [exact U1|]. intros Hin.
+          pose proof (U2 pre pre Hin (or_introl eq_refl)) as X. rewrite is_prefix_refl in X. discriminate.
+        - split; [|exact F3]. intros a x Ha Hx. apply in_app_or in Ha. destruct Ha as [Ha|[<-|[]]].
+          + apply U2; auto. right. exact Hx.
+          + rewrite Forall_forall in Fx. destruct (Fx _ Hx) as [_ H2]. exact H2. }
+      destruct o as [| |q0 [k|]| | | |]; cbn; try exact NEXT.
+      destruct (Nat.eqb (List.length acc) k); [apply TRIV; reflexivity|exact NEXT].
+    + (* PQNext *)
+      destruct U as [U1 [U2 U3]]. cbn [acc_of pending] in *.
+      destruct fr as [|[|[[c pre0] q0] todo] fr]; cbn [snd visit_override tpc].
+      * split; [exact U1|]. split; [intros a x _ []|constructor].
+      * split; [exact U1|]. split; [exact U2|exact U3].
+      * split; [exact U1|]. split; [exact U2|exact U3].
+    + destruct (heads_all q).
+      * destruct (get_cont h n); try (apply TRIV; reflexivity). destruct (strip_glob q); apply TRIV; reflexivity.
+      * destruct q as [|k r]; try (apply TRIV; reflexivity). destruct (get_cont h n) as [| |cs]; try (apply TRIV; reflexivity).
+        destruct (assoc k cs); apply TRIV; reflexivity.
+    + destruct fr as [|f fr]; try (apply TRIV; reflexivity). destruct (dtodo f) as [|[k c] rest]; apply TRIV; reflexivity.
+    + destruct fr as [|f fr]; apply TRIV; reflexivity.
+    + destruct fr as [|f fr]; apply TRIV; reflexivity.
+  - destruct SH as [_ [_ ->]]. cbn [tpc]. destruct p; cbn in *; try discriminate; try (apply TRIV; reflexivity);
+      try exact U; try (destruct p; apply TRIV; reflexivity);
+      try (destruct fr as [|[|? ?] ?]; cbn in *; discriminate); try (destruct fr; cbn in *; discriminate);
+      try (destruct hs; cbn in *; discriminate); try (destruct p; cbn in *; discriminate).
+  - destruct SH as [_ ->]. cbn [tpc]. destruct p; cbn in *; try discriminate; try (apply TRIV; reflexivity);
+      try exact U; try (destruct p; apply TRIV; reflexivity);
+      try (destruct fr as [|[|? ?] ?]; cbn in *; discriminate); try (destruct fr; cbn in *; discriminate);
+      try (destruct hs; cbn in *; discriminate); try (destruct p; cbn in *; discriminate).
+  - destruct SH as [_ [_ ->]]. cbn [tpc]. destruct p; cbn in *; try discriminate; try (apply TRIV; reflexivity);
+      try exact U;
+      try (destruct fr as [|[|? ?] ?]; cbn in *; discriminate); try (destruct fr; cbn in *; discriminate);
+      try (destruct hs; cbn in *; discriminate); try (destruct p; cbn in *; discriminate).
+  - destruct SH as [n [m [hs' [_ [_ ->]]]]]. cbn [tpc]. destruct p; cbn in *; try discriminate; try (apply TRIV; reflexivity);
+      try exact U;
+      repeat (match goal with
+              | |- context [match ?x with _ => _ end] => is_var x; destruct x
+              | H : context [match ?x with _ => _ end] |- _ => is_var x; destruct x
+              end; cbn in *; try discriminate; try (apply TRIV; reflexivity); try exact U).
+Qed.
+
+Theorem reach_uq ops s :
+  forallb patched_op ops = true -> reach ops s -> Forall (fun t => uq (tpc t)) (thr s).
+Proof.
+  intros QP R. induction R as [|s j s' R IH ST].
+  - cbn. apply Forall_forall. intros t Ht. apply in_map_iff in Ht. destruct Ht as [o [<- _]].
+    cbn. split; [constructor|]. split; [intros a x []|constructor].
+  - destruct (reach_TInv _ _ QP R) as [_ [_ [KN _]]].
+    unfold step, step_gen in ST.
+    destruct (nth_error (thr s) j) as [tj|] eqn:Ej; [|discriminate].
+    destruct (tstep_gen false (hp s) tj) as [[h' tj']|] eqn:Ets; [|discriminate]. inv ST. cbn [hp thr].
+    apply Forall_forall. intros t0 H0. apply In_set_nth in H0. destruct H0 as [->|H0].
+    + eapply uq_step; eauto.
+      * apply (Forall_nth_error _ _ _ _ (reach_fam_ok _ _ R) Ej).
+      * apply (Forall_nth_error _ _ _ _ IH Ej).
+    + rewrite Forall_forall in IH. auto.
+Qed.
+
+(** a Query / Walk reports no path twice *)
+Theorem query_reports_once ops s i t acc :
+  forallb patched_op ops = true -> reach ops s ->
+  nth_error (thr s) i = Some t -> tpc t = PDone (XLeaves acc) -> NoDup (map fst acc).
+Proof.
+  intros QP R Et Pc. pose proof (Forall_nth_error _ _ _ _ (reach_uq _ _ QP R) Et) as [U _].
+  rewrite Pc in U. exact U.
+Qed.
+
+(** non-vacuity: a Query parked in its visitor keeps a Delete waiting at the root
+    and reports both leaves; the Delete removes a/b afterwards *)
+Definition qd_ex_ops : list cop :=
+  [CAdd ["a"; "b"] 1%Z; CAdd ["a"; "c"] 2%Z; CQuery ["a"; "*"] None; CDelete ["a"; "b"]].
+Definition qd_ex_sched1 : list nat := repeat 0 40 ++ repeat 1 40 ++ repeat 2 9 ++ repeat 3 5.
+Definition qd_ex_sched2 : list nat := qd_ex_sched1 ++ repeat 2 40 ++ repeat 3 40.
+
+Example query_delete_example :
+  (let s := run_sched (init_state qd_ex_ops) qd_ex_sched1 in
+   map (fun t => (tpc t, held t)) (thr s)
+   = [(PDone (XAdd true), []); (PDone (XAdd true), []);
+      (PQVisit ["a"; "b"] 1 [] [[]; [(3, ["a"; "c"], [])]; []], [(2, MR); (1, MR); (0, MR)]);
+      (PLDelAcq ["a"; "b"], [])]) /\
+  (let s := run_sched (init_state qd_ex_ops) qd_ex_sched2 in
+   (map tpc (thr s), map (absf (hp s)) [["a"; "b"]; ["a"; "c"]])
+   = ([PDone (XAdd true); PDone (XAdd true);
+       PDone (XLeaves [(["a"; "b"], 1%Z); (["a"; "c"], 2%Z)]); PDone (XPaths [["a"; "b"]])],
+      [None; Some 2%Z])).
+Proof. split; vm_compute; reflexivity. Qed.
